@@ -19,7 +19,7 @@ import os
 ID = "C46"
 PROP_FILE = "Props/C46.v"
 THEOREMS = ["C46_internal_tables", "C46_external_arrays", "C46_external_seq_nums", "C46_metadata",
-            "C46_arrays_distinct_partial", "C46_a_refuted"]
+            "C46_arrays_distinct", "C46_a_refuted", "C46_one_array_per_pair", "C46_full_thm"]
 _IMPORTS = ("From Coq Require Import String.\nFrom BV Require Import Pure.TiledBatch.\nImport List ListNotations.\n"
             "Local Open Scope string_scope.\nLocal Open Scope list_scope.")
 # String literals are slow to elaborate in Coq (~0.7 ms each): every distinct string of the generated
@@ -738,7 +738,9 @@ def wf_ext(case):
     dm, sr = _pair_maps(case)
     sds = [s for s in docs if s[0] == "sd"]
     pair = lambda s: (dm[s[3]], sr[s[2]]) if s[3] in dm and s[2] in sr else None
-    return (len(set(du)) == len(du) and len(set(su)) == len(su) and all(pair(s) is not None for s in sds)
+    full = {"%s_%s" % pair(s) for s in sds if pair(s) is not None}
+    return (len(set(du)) == len(du) and len(set(su)) == len(su) and not (set(su) & full)
+            and all(pair(s) is not None for s in sds)
             and all(a[2] != b[2] or pair(a) == pair(b) for a in sds for b in sds))
 
 
